@@ -83,6 +83,12 @@ func (c compactEngine) Generate(rng *rand.Rand, prop string, thorough bool) *Pla
 		cfg.Family = []int{int(KFTiny), int(KFMixed)}[rng.Intn(2)]
 		cfg.MaxSeg = []uint32{1024, 2048, 4096}[rng.Intn(3)]
 	}
+	cfg.RecoverFirst = rng.Intn(4) == 0
+	if cfg.RecoverFirst {
+		// after a recovery the segment counters are what recovery rebuilt: let the thresholds decide
+		// which segments are picked, so that a segment is also compacted WITHOUT its older neighbours
+		cfg.CompFrag = []float32{0.01, 0.2, 0.4, 0.6}[rng.Intn(4)]
+	}
 	p := &Plan{Property: prop, Engine: "compact", Cfg: cfg}
 	if c.ploss {
 		p.Engine = "compact-ploss"
@@ -263,7 +269,7 @@ func (c compactEngine) Execute(p *Plan) *RunResult {
 			return pts[a].cut < pts[b].cut
 		})
 	}
-	rp := NewReplayer(NewImage())
+	rp := NewReplayer(initialOrEmpty(cr.initial))
 	applied := 0
 	for _, pt := range pts {
 		for applied < pt.k {
@@ -491,7 +497,14 @@ func (scanEngine) Generate(rng *rand.Rand, prop string, thorough bool) *Plan {
 	nw := 1 + rng.Intn(3)
 	parts := splitKeys(cfg.NKeys, nw)
 	for w := 0; w < nw; w++ {
-		p.Tasks = append(p.Tasks, genClient(rng, cfg, 5+rng.Intn(50), map[string]int{"put": 55, "del": 30, "compact": 2}, parts[w], &id, sizes))
+		ww := map[string]int{"put": 55, "del": 30, "compact": 2}
+		n := 5 + rng.Intn(50)
+		if rng.Intn(3) == 0 {
+			// a deleter: removes most of its keys while scans are under way (the key count shrinks under the scan)
+			ww = map[string]int{"put": 8, "del": 90}
+			n = len(parts[w]) + rng.Intn(len(parts[w])+1)
+		}
+		p.Tasks = append(p.Tasks, genClient(rng, cfg, n, ww, parts[w], &id, sizes))
 	}
 	ns := 1 + rng.Intn(2)
 	for s := 0; s < ns; s++ {
@@ -580,6 +593,11 @@ func (backupEngine) Generate(rng *rand.Rand, prop string, thorough bool) *Plan {
 	cfg.NKeys = 2 + rng.Intn(10)
 	cfg.ShortReads = rng.Intn(4) != 0
 	cfg.MaxSeg = []uint32{600, 700, 1024, 2048}[rng.Intn(4)]
+	cfg.RecoverFirst = rng.Intn(4) == 0
+	if cfg.RecoverFirst {
+		cfg.CompMinSeg = 1
+		cfg.CompFrag = []float32{0.05, 0.2, 0.4, 0.6}[rng.Intn(4)]
+	}
 	p := &Plan{Property: prop, Engine: "backup", Cfg: cfg}
 	keys := GenKeys(rng, KeyFamily(cfg.Family), cfg.NKeys, cfg.HashSeed)
 	p.Cfg.NKeys = len(keys)
@@ -823,7 +841,7 @@ func (c compactEngine) powerLossSweep(p *Plan, cr *concResult, res *RunResult) *
 		}
 	}
 	sort.Ints(pts)
-	rp := NewReplayer(NewImage())
+	rp := NewReplayer(initialOrEmpty(cr.initial))
 	applied := 0
 	for _, k := range pts {
 		for applied < k {
@@ -875,4 +893,11 @@ func (c compactEngine) powerLossSweep(p *Plan, cr *concResult, res *RunResult) *
 	res.NonTrivial = cr.env.Probes["segment_removed"] > 0
 	res.Sample = map[string]interface{}{"seed": p.Seed, "tasks": len(p.Tasks), "ops": p.NumOps(), "steps": res.Steps, "power_loss_instants": len(pts), "sync_mode": p.Cfg.SyncMode, "cfg": p.Cfg}
 	return res
+}
+
+func initialOrEmpty(im *Image) *Image {
+	if im == nil {
+		return NewImage()
+	}
+	return im
 }
